@@ -95,6 +95,9 @@ func NewPrivateKeyFromXML(xmlInput string, demo bool) (*PrivateKey, error) {
 	if err != nil {
 		return nil, err
 	}
+	if privk.P == nil || privk.Q == nil || privk.PPrime == nil || privk.QPrime == nil {
+		return nil, errors.New("private key is missing a mandatory element (p, q, pPrime or qPrime)")
+	}
 
 	if !demo {
 		// Do some sanity checks on the key data
@@ -275,6 +278,9 @@ func NewPublicKeyFromBytes(bts []byte) (*PublicKey, error) {
 	err := xml.Unmarshal(bts, pubk)
 	if err != nil {
 		return nil, err
+	}
+	if pubk.N == nil || pubk.Z == nil || pubk.S == nil {
+		return nil, errors.New("public key is missing a mandatory element (n, Z or S)")
 	}
 	keylength := pubk.N.BitLen()
 	if sysparam, ok := DefaultSystemParameters[keylength]; ok {
